@@ -1083,7 +1083,7 @@ def eExpr : Nat → Expr → List String
     | .fn d ns n args => [fnNameTok Repair.namespaceDot ns n, "("] ++ (if d then ["distinct"] else []) ++ commaSep (args.map (eExpr f)) ++ [")"]
     | .star => ["*"]
     | .paren x => ["("] ++ eExpr f x ++ [")"]
-    | .neg x => "not" :: eOperand f x (if Repair.nestedNot then 3 else 4)
+    | .neg x => "not" :: eOperand f x 4
     | .conj es => sepBy "and" (es.map (fun x => eOperand f x 2))
     | .disj es => sepBy "or" (es.map (eExpr f))
     | .xdisj es => sepBy "xor" (es.map (fun x => eOperand f x 1))
